@@ -7,6 +7,8 @@ session or an error, never a panic" is the statement that this value is never re
 import Qvnt.Props.C12
 import Qvnt.Lemmas.GenInt.int_add_ast_eq
 import Qvnt.Lemmas.GenInt.int_new_eq
+import Qvnt.Lemmas.GenSym.sym_new_eq
+import Qvnt.Lemmas.GenSym.sym_finish_eq
 
 namespace Qvnt
 open Qvnt.Gen2 Interp
@@ -82,4 +84,17 @@ theorem C12_code_new_total (nodes : List (Node R)) :
   · exact Or.inr ⟨e, by rw [he]; rfl, he⟩
 
 end
+section run
+variable {R : Type} [CommRing R] [Consts R] [Div R] [LE R] [DecidableLE R] [LT R] [DecidableLT R] [HasSqrt R] [RegConsts R]
+
+/-- **the translated runner runs an accepted program to completion**: `Sym::new` then `Sym::finish` as translated return
+a value for every outcome stream that is at least as long as the number of draws the queue asks for -/
+theorem C12_code_run_total (i : Interp R) (drawn : List Nat) (hq : i.qReg.length < 64)
+    (hw : WordQueue (Sym.new i).qOps) (hc : (Sym.new i).cReg.qMask < 2 ^ 64)
+    (h : i.qOps.drawCount ≤ drawn.length) : (sym_finish (sym_new i) drawn).isSome = true := by
+  rw [sym_new_eq i hq, sym_finish_eq (Sym.new i) drawn hw hc, Option.isSome_map]
+  exact C12_run_total i drawn h
+
+end run
+
 end Qvnt
